@@ -65,8 +65,12 @@ CHECKS.update({
          "new_pandas on models and spaces with colliding names and file locations (incl. hostile creations), plain assignment of the same value to more names, rebinding, deletion in both orders, update_pandas, saving, closing; per model the specs must be exactly the values bound to at least one reference (identity), files unique, get_spec consistent, self-checks pass, rejected creations leave nothing, saved files read back.",
          "csv PandasData only; real pandas and files on tmpfs; no faults injected.", "6/C18"),
 })
+CHECKS.update({
+ "C15": ("exploration", "seeded model histories x seeded query schedules, export-twin (model vs exported package in a modelx-free subprocess)",
+         "The only schedule dimension of the statement is the order of requests and re-requests (cached vs uncached cells, ItemSpace creation order): models come from seeded edit histories inside the export subset, are exported with Model.export, and the package - imported in a fresh interpreter where importing modelx raises - answers the same queries in another seeded order; values must be equal wherever the model returns a value.",
+         "No fault dimension. Outside the subset (not generated): Cells.__getitem__ / Space.parent and other interface API inside formulas, scalar-cells coercion, relative object references together with parameter formulas (documented limitation). Two known findings (scope inside a conditional test; parameter formulas returning references) are excluded from generation and replayed from witnesses.", "6/C15"),
+})
 NA = {
- "C15": "not built in this round: the export twin (exported package run in a modelx-free subprocess) was designed (DESIGN.md 6/C15) but there was no time to build and triage it; the property also has no fault or schedule dimension - nothing is claimed",
  "C20": "quantified over inputs only (source-text layouts of a pure function of that text): no schedule, clock, fault, I/O interleaving or history for a simulator to own; covering it means a grammar-based text fuzzer, which is a different technique",
 }
 ALL = ["C%02d" % i for i in range(1, 21)]
